@@ -65,3 +65,29 @@ def register(reg):
     reg.lemma('same_page_link', vars={'page_url': 'Str', 'url': 'Str', 'href': 'Str'},
               hyps=["url.startswith(page_url + '#')", "href == url[len(page_url):]"],
               goal=["page_url + href == url", "href.startswith('#')"])
+    _link_contexts(reg)
+
+
+def _link_contexts(reg):
+    """call sites of taglink in the renderers: the page url handed over is the address of the page the link is placed on
+    (taglink's same-page shortening is only right under that condition - lemma same_page_link)"""
+    T = 'pydoctor/templatewriter/pages/table.py'
+    SB = 'pydoctor/templatewriter/pages/sidebar.py'
+    reg.shape('LinkOnlyItem', {'child': 'Ref[Documentable]', 'documented_ob': 'Ref[Documentable]'})
+    reg.shapes['TableRow'].fields.update({'ob': 'Ref[Documentable]', 'child': 'Ref[Documentable]'})
+    reg.contract('pydoctor/epydoc2stan.py', 'insert_break_points', params={'text': 'Str'}, returns='Obj[Flat]', raises={}, assumed=True, pure=True,
+                 source='adds <wbr> break points to a name (label only)')
+    reg.assume_ext('<Tag>.clear', params={'self': 'Obj[Tag]'}, returns='Obj[Tag]', raises={}, source='stan')
+    reg.assume_ext('<Tag>.__call__', params={'self': 'Obj[Tag]', 'child': 'Any'}, returns='Obj[Tag]', raises={}, source='stan')
+    reg.assume_ext('twisted.web.template.tags.code', params={'child': 'Any'}, returns='Obj[Tag]', raises={}, source='stan')
+    # a row of a member table on the page of self.ob (the own members, and the members inherited from a base, of the page's object)
+    TREE = ("forall('Ref[Documentable]', lambda x: implies(x.documentation_location != DocLocation.OWN_PAGE, x.parent is not None) "
+            "and x.parent != x)")          # the object model is a tree (C02)
+    reg.contract(T, 'TableRow.name', params={'request': 'Obj[Req]', 'tag': 'Obj[Tag]'}, returns='Obj[Tag]', raises={},
+                 modifies=['violations', 'once_msgs', 'needsnl'], requires=[TREE],
+                 ensures=["arg_of('taglink', 'o') == self.child", "arg_of('taglink', 'page_url') == self.ob.url"])
+    # a sidebar entry on the page of documented_ob
+    reg.contract(SB, 'LinkOnlyItem.name', params={'request': 'Obj[Req]', 'tag': 'Obj[Tag]'}, returns='Obj[Tag]', raises={},
+                 modifies=['violations', 'once_msgs', 'needsnl'],
+                 requires=[TREE],
+                 ensures=["arg_of('taglink', 'o') == self.child", "arg_of('taglink', 'page_url') == self.documented_ob.page_object.url"])
